@@ -44,7 +44,14 @@ pub fn run_set(args: &Args, mut out: Out) {
             continue;
         }
         let res = catch(|| {
+            // (every setter may be called more than once: the last call wins)
             let c = Cookie::new(&name, value.clone().try_into().unwrap())
+                .with_secure(!secure)
+                .with_http_only(!http_only)
+                .with_same_site(SameSite::Lax)
+                .with_max_age(Duration::from_secs(7))
+                .with_domain("first.example")
+                .with_path("/first")
                 .with_domain(&domain)
                 .with_path(&path)
                 .with_max_age(Duration::from_secs(max_age))
